@@ -30,7 +30,82 @@ func Gen(r *core.Rng, tier string) ([]core.In[opsim.Scenario], bool) {
 		sc := opsim.Scenario{Cfg: opsim.GenConfig(r, profile), Seed: int64(r.Next() >> 1), Steps: 10 + r.Intn(profile.Steps), Profile: "c03"}
 		ins = append(ins, core.In[opsim.Scenario]{Input: sc, Stream: "random"})
 	}
+	rl := r.Fork()
+	for i := 0; i < n/6; i++ {
+		ins = append(ins, core.In[opsim.Scenario]{Input: Limited(rl), Stream: "equal-settings"})
+	}
 	return ins, false
+}
+
+// Limited: 2-3 hooks in queues of their own carry value-EQUAL `settings` (executionMinInterval one
+// hour, executionBurst B), beside an optional hook without settings that fails and is retried.
+// Every limited hook is started at most B times (its own allowance is never used up), so its
+// limiter must never make it wait: an execution of one queue must not be delayed by what hooks
+// of other queues do, however similar their settings are.  The model has no limiter; under this
+// restriction it needs none.
+func Limited(r *core.Rng) opsim.Scenario {
+	nh := 2 + r.Intn(2)
+	burst := 1 + r.Intn(2)
+	var cfg []opsim.Hook
+	for i := 1; i <= nh; i++ {
+		cfg = append(cfg, opsim.Hook{Id: i, IntervalMs: 3600000, Burst: burst, Sched: []opsim.SB{{Name: i, Queue: i, Cron: i}}})
+	}
+	free := 0
+	if r.Chance(60) {
+		free = nh + 1
+		cfg = append(cfg, opsim.Hook{Id: free, Sched: []opsim.SB{{Name: free, Queue: free, Cron: free}}})
+	}
+	acts := []opsim.Action{{Kind: "Boot"}}
+	left := map[int]int{}
+	open := map[int]bool{}
+	queued := map[int]int{}
+	for i := 1; i <= nh; i++ {
+		left[i] = burst
+	}
+	tick := func(i int) {
+		acts = append(acts, opsim.Action{Kind: "Tick", C: i})
+		if open[i] {
+			queued[i] = 1 // further ticks are combined into one task behind the open execution
+		} else {
+			open[i] = true
+		}
+	}
+	finish := func(i int, ok bool) {
+		acts = append(acts, opsim.Action{Kind: "Finish", Q: i, Ok: ok})
+		if !ok {
+			return // retried at once: still open
+		}
+		if queued[i] > 0 {
+			queued[i] = 0
+		} else {
+			open[i] = false
+		}
+	}
+	for steps := 6 + r.Intn(10); steps > 0; steps-- {
+		i := 1 + r.Intn(len(cfg))
+		switch {
+		case i == free:
+			if open[i] && r.Chance(55) {
+				finish(i, r.Chance(40))
+			} else {
+				tick(i)
+			}
+		case open[i] && (left[i] == 0 || r.Chance(40)):
+			// a limited hook: every start counts against its own allowance, so a combined task
+			// behind an open execution needs allowance, too
+			if queued[i] > 0 && left[i] == 0 {
+				continue
+			}
+			finish(i, true)
+		case left[i] > 0 && !(open[i] && left[i] < 2):
+			left[i]--
+			if open[i] {
+				left[i]-- // the queued task will start an execution of its own
+			}
+			tick(i)
+		}
+	}
+	return opsim.Scenario{Cfg: cfg, Acts: acts}
 }
 
 func Corpus() []opsim.Scenario {
@@ -47,7 +122,7 @@ func Corpus() []opsim.Scenario {
 
 var Driver = core.Driver[opsim.Scenario, opsim.Trace]{
 	Spec: core.Spec{Property: "C03", Imports: []string{"Op_Model", "Op_Corr", "C03_Spec", "C03_Corr"}, Corr: "C03_Corr", ShrinkKey: "acts",
-		Rule: "generated hook sets (1-4 hooks, kubernetes/schedule bindings over 4 queues, groups, v0) run by the real operator on a fake cluster with scripted hook stubs; actions (Boot, Tick, KubeEv on the managers' channels, Finish ok/fail of an open execution) chosen from the observable state with executions held open at random; after every action the queues' content, open executions, hook-visible contexts and unlocked monitors are compared with the model; non-trivial = >=4 actions of >=2 kinds with >=2 executions; distinct = distinct (config, action list)"},
+		Rule: "generated hook sets (1-4 hooks, kubernetes/schedule bindings over 4 queues, groups, v0) run by the real operator on a fake cluster with scripted hook stubs; actions (Boot, Tick, KubeEv on the managers' channels, Finish ok/fail of an open execution) chosen from the observable state with executions held open at random; after every action the queues' content, open executions, hook-visible contexts and unlocked monitors are compared with the model; stream equal-settings: 2-3 hooks in queues of their own with value-equal `settings` (interval one hour, burst 1-2), each started no more often than its own burst allows, beside a hook without settings that fails and is retried: no execution may wait for a limiter; non-trivial = >=4 actions of >=2 kinds with >=2 executions; distinct = distinct (config, action list)"},
 	Gen:      Gen,
 	Run:      opsim.RunScenario,
 	Render:   func(in opsim.Scenario, obs *opsim.Trace, crash string) core.Case { return opsim.Render(in, obs, crash) },
